@@ -111,7 +111,7 @@ def check(ctx):
     W = cp.witnesses()
     fixed_pairs = ["c03_res_fold_at_cut", "c03_pipelined_status_line_cut", "c06_msglen_empty_chunk_lines_a", "c06_msglen_empty_chunk_lines_b"]
     wit_cases = []
-    for nme in fixed_pairs + ["c03_F1_lfcr", "c03_ext_method_pipelined"]:
+    for nme in fixed_pairs + ["c03_F1_lfcr", "c03_ext_method_pipelined", "c03_F2_bare_cr_status_line"]:
         wit_cases += [W[nme + ".whole"], W[nme + ".split"]]
     allc = cases + wit_cases
     gmap = {c: g for c, g in zip(cases, group)}
@@ -159,6 +159,9 @@ def check(ctx):
     r = pair("c03_ext_method_pipelined")
     if r is not None and not r[0] and "ext-method-pipelined" in known:
         ctx.known.append("id=ext-method-pipelined witness still exhibits it: %s" % known["ext-method-pipelined"]["what"][:170])
+    r = pair("c03_F2_bare_cr_status_line")
+    if r is not None and not r[0] and "F2-bare-cr-in-status-line" in known:
+        ctx.known.append("id=F2-bare-cr-in-status-line witness still exhibits it (malformed input, outside the well-formed domain): %s" % known["F2-bare-cr-in-status-line"]["what"][:170])
     # ---- model vs library
     mm = vf.first_mismatches(impl, model, limit=50) if not crash else []
     ctx.cov["suites"]["S-connp"]["mismatches"] = len(mm)
